@@ -1,6 +1,64 @@
-(* C13 - statements only; proofs in the *Facts.v files. (grows) *)
-From Sbdf Require Import Va VaFacts PrimFacts ObjFacts.
-Theorem C13_value_array_wire : forall swp v, wf_va v -> byte_ok (vty v) ->
-  wspec (va_write swp v) (Ok tt) (enc_va swp v) /\ rspec (va_read swp None) (enc_va swp v) v.
-Proof. intros swp v W B. split; [exact (wspec_va swp v W)|exact (rspec_va swp v W B)]. Qed.
-Print Assumptions C13_value_array_wire.
+(* C13 — write failures are never swallowed.
+   wspec w r bs: on a stream that accepts `budget` more bytes, the writer w
+     - returns r and has had exactly bs accepted when budget >= |bs|,
+     - returns a non-OK status, has had exactly the first `budget` bytes of bs accepted and leaves
+       the stream exhausted when budget < |bs| (so that every later write of >= 1 byte fails too).
+   Statements only; proofs in PrimFacts, ObjFacts, VaFacts, SliceFacts, FileFacts. *)
+From Sbdf Require Import File PrimFacts SevenBit ObjFacts VaFacts SliceFacts FileFacts.
+
+(* the meaning of wspec for a fresh stream *)
+Theorem C13_meaning : forall (w : W unit) r bs budget, wspec w r bs -> 0 <= budget ->
+  (zlen bs <= budget -> wrun w budget = (match r with Ok _ => SBDF_OK | Err e => e end, bs)) /\
+  (budget < zlen bs -> exists e, wrun w budget = (e, ztake budget bs) /\ e <> SBDF_OK).
+Proof. exact wspec_run. Qed.
+Print Assumptions C13_meaning.
+
+(* and for a stream that has already refused data: any writer with something to write fails *)
+Theorem C13_exhausted_stream_stays_failed : forall (w : W unit) r bs s, wspec w r bs -> wbud s = 0 -> 0 < zlen bs ->
+  exists e s', w s = (Err e, s') /\ e <> SBDF_OK /\ wbytes s' = wbytes s /\ wbud s' = 0.
+Proof.
+  intros w r bs s H Hb Hl. destruct (H s ltac:(lia)) as [_ Hf].
+  destruct Hf as (e & s' & E & Ne & B & U); [lia|]. exists e, s'. repeat split; try assumption.
+  rewrite B, Hb. rewrite BaseFacts.ztake_neg by lia. apply app_nil_r.
+Qed.
+Print Assumptions C13_exhausted_stream_stays_failed.
+
+Theorem C13_primitives : forall swp v n s id,
+  wspec (write_int8 v) (Ok tt) [v mod 256] /\ wspec (write_int32 swp v) (Ok tt) (enc32 swp v) /\
+  wspec (write_7bit n) (Ok tt) (enc7 n) /\ wspec (write_string swp s) (Ok tt) (enc_string swp s) /\
+  wspec (sec_write id) (Ok tt) (enc_sec id) /\ wspec fh_write_cur (Ok tt) enc_header.
+Proof.
+  intros. exact (conj (wspec_int8 v) (conj (wspec_int32 swp v) (conj (wspec_7bit n) (conj (wspec_string swp s) (conj (wspec_sec id) wspec_fh))))).
+Qed.
+Print Assumptions C13_primitives.
+
+Theorem C13_objects : forall swp o packed, (is_arr (oty o) = true \/ 0 < usize (oty o)) ->
+  wspec (write_objects swp o packed) (Ok tt) (enc_objects swp o packed) /\
+  wspec (obj_write_arr swp o) (Ok tt) (enc_obj_arr swp o).
+Proof. intros swp o packed H. split; [now apply wspec_write_objects|now apply wspec_obj_write_arr]. Qed.
+Print Assumptions C13_objects.
+
+Theorem C13_value_array : forall swp v, wf_va v -> wspec (va_write swp v) (Ok tt) (enc_va swp v).
+Proof. exact wspec_va. Qed.
+Print Assumptions C13_value_array.
+
+Theorem C13_column_slice : forall swp c, wf_cs c -> wspec (cs_write swp c) (Ok tt) (enc_cs swp c).
+Proof. exact wspec_cs. Qed.
+Print Assumptions C13_column_slice.
+
+Theorem C13_table_slice : forall swp cols, wf_ts cols ->
+  wspec (ts_write swp {| tscols := map Some cols; tsowned := false |}) (Ok tt) (enc_ts swp cols).
+Proof. exact wspec_ts. Qed.
+Print Assumptions C13_table_slice.
+
+(* all slices of a table followed by the end marker: one failure point anywhere fails the call in
+   progress and every later one *)
+Theorem C13_slices_and_end : forall swp sls ncols, slices_ok ncols sls ->
+  wspec (wfor (map (fun cols => {| tscols := map Some cols; tsowned := false |}) sls) (ts_write swp) ;;w ts_write_end)
+        (Ok tt) (enc_slices swp sls).
+Proof. exact wspec_slices. Qed.
+Print Assumptions C13_slices_and_end.
+
+Example C13_nonvacuous :
+  wrun (write_string false [104; 105]) 5 = (SBDF_ERROR_IO, [2; 0; 0; 0; 104]) /\ wrun (write_string false [104; 105]) 6 = (SBDF_OK, [2; 0; 0; 0; 104; 105]).
+Proof. split; vm_compute; reflexivity. Qed.
